@@ -108,6 +108,72 @@ def wsLoop : Nat → WsReader → List WsMsg → Nat → Bytes → WsReader × L
 def WsReader.read (r : WsReader) (arrived : List WsMsg) (bufLen : Nat) : WsReader × List WsMsg × WsResult :=
   wsLoop (2 * arrived.length + 4) r arrived bufLen []
 
+/-! ### websocket read adapter of the tokio client (`TokioWsStream`: stream-ws over tokio-tungstenite) -/
+
+/-- what the message stream yields: a binary message, a message without MQTT bytes (text, ping, pong), a close message, a
+    failure (a malformed frame), the end of the socket without a closing handshake -/
+inductive AMsg where
+  | data (payload : Bytes)
+  | control
+  | close
+  | fail
+  | eof
+  deriving Repr, BEq, DecidableEq
+
+/-- `ReadState` -/
+inductive AState where
+  | pending
+  | ready (buf : Bytes) (amtRead : Nat)
+  | terminated
+  deriving Repr, BEq, DecidableEq, Inhabited
+
+/-- one `poll_read`: bytes, nothing yet, a read of zero bytes (what `AsyncRead` and the client's loop take for the end of
+    the stream), an error -/
+inductive AResult where
+  | ok (bytes : Bytes)
+  | pending
+  | eof
+  | err
+  deriving Repr, BEq, DecidableEq
+
+/-- `poll_read` into a buffer of `bufLen` bytes; `arrived` are the complete messages the socket can still yield.  A binary
+    message without payload carries no bytes of the stream and is passed over like any message that carries none (it must
+    not surface as a read of zero bytes). -/
+def awsRead : Nat → AState → List AMsg → Nat → AState × List AMsg × AResult
+  | 0, st, arrived, _ => (st, arrived, .pending)
+  | _ + 1, .terminated, arrived, _ => (.terminated, arrived, .eof)
+  | _ + 1, .ready buf amt, arrived, bufLen =>
+    let rest := buf.drop amt
+    let len := min bufLen rest.length
+    (if len = rest.length then .pending else .ready buf (amt + len), arrived, if len = 0 then .eof else .ok (rest.take len))
+  | fuel + 1, .pending, arrived, bufLen =>
+    match arrived with
+    | [] => (.pending, [], .pending)
+    | .control :: r => awsRead fuel .pending r bufLen
+    | .data p :: r => if p.isEmpty then awsRead fuel .pending r bufLen else awsRead fuel (.ready p 0) r bufLen
+    | .close :: r => awsRead fuel .terminated r bufLen
+    | .fail :: r => (.pending, r, .err)
+    | .eof :: r => (.pending, .eof :: r, .err)
+
+def AState.read (st : AState) (arrived : List AMsg) (bufLen : Nat) : AState × List AMsg × AResult :=
+  awsRead (arrived.length + 2) st arrived bufLen
+
+/-! ### websocket upgrade request -/
+
+/-- outcome of building the upgrade request for `ws://<endpoint>/mqtt` (`create_default_websocket_handshake_request`, then
+    `into_client_request`): the request with its Host header, or an error that fails the connection attempt -/
+inductive WsRequest where
+  | ok (hostHeader : Bytes)
+  | err
+  deriving Repr, BEq, DecidableEq
+
+/-- the URI parser (crate `http`) is a parameter: whether it accepts the string, and the host it finds -/
+def wsRequest (uriOk : Bool) (host : Option Bytes) : WsRequest :=
+  if !uriOk then .err
+  else match host with
+    | none => .err
+    | some h => .ok h
+
 /-! ### websocket write adapter -/
 
 /-- how the (non-blocking) socket under the websocket takes one `write` call: at most `n` bytes, would block, fails -/
